@@ -108,7 +108,7 @@ _p('C16', ['r_visit'],
    'resumption point, child sequences scheduled for every owner, start/end events once per sequence.',
    not_decided='program-order of events across nested sequences as a whole (argued from the resumption discipline, not '
                'executed); absence of recursion is decided by R-NOREC')
-PROPERTIES['C06']['rules'] = ['r_edges', 'r_visit', 'r_segments']
+PROPERTIES['C06']['rules'] = ['r_edges', 'r_visit', 'r_segments', 'r_pushpair']
 
 _p('C04', ['r_flow'],
    'Attribute flow through the entity records: each section parser and each section emitter is evaluated symbolically, '
@@ -146,7 +146,7 @@ _p('C02', ['r_emitorder', 'r_edges', 'r_visit', 'r_norec', 'r_segments', 'r_flow
    'kept and therefore indexed; no recursion is reachable from emit (R-NOREC).',
    not_decided='acceptance of the output by an independent validator; panics behind API misuse (ids of deleted items)')
 
-_p('C07', ['r_sweep', 'r_edges', 'r_entryty'],
+_p('C07', ['r_sweep', 'r_edges', 'r_entryty', 'r_segments'],
    'Precision of the GC: gc::run is evaluated with nothing inlined and must sweep every kind tracked by `Used` against the '
    'used set of that kind, imports by the kind they import; the helper `unused` must return exactly the complement; '
    'Used::new may root only the documented categories and each worklist step may retain only what the popped entity '
@@ -169,7 +169,7 @@ _p('C18', ['r_effects', 'r_emitorder'],
    'get_exported_func(fid), delete nothing and leave the original untouched. Validity of the result rests on R-EMITORDER.',
    not_decided='that the user-supplied body is well typed; behaviour of callers at run time')
 
-_p('C08', ['r_nondet', 'r_restore', 'r_emitorder', 'r_cache'],
+_p('C08', ['r_nondet', 'r_restore', 'r_emitorder', 'r_cache', 'r_gates', 'r_customs'],
    'Sources of nondeterminism and of state change are excluded structurally: no iteration over a RandomState hash container '
    'anywhere in the crate; every IdHash iteration reachable from emit_wasm ends in an order-insensitive sink or is collected '
    'and sorted by a total key; emit_wasm restores every field it moves out of the module and all other access during emit is '
@@ -230,7 +230,7 @@ _p('C15', ['r_builder', 'r_control', 'r_table', 'r_pushpair', 'r_sorted', 'r_vis
    not_decided='the in-order flattening of an arbitrary built tree as a whole (composition of the above; not executed); '
                'well-typedness of what the user builds')
 
-_p('C09', ['r_par', 'r_nondet'],
+_p('C09', ['r_par', 'r_nondet', 'r_arena'],
    'Both cargo configurations are analysed: the bodies whose callee multiset differs between the serial and the parallel build '
    'must be exactly the maybe_parallel! users (any other configuration-dependent code - e.g. a different sort - is reported); '
    'every into_par_iter pipeline is order-preserving adaptors + collect::<Vec<_>>, every unindexed par_iter pipeline ends in a '
